@@ -1524,6 +1524,7 @@ class EBPF(EBPFBase):
             for tmp, i in save:
                 self.append(Opcode.MOV+Opcode.LONG+Opcode.REG, i, tmp, 0, 0)
             self.owners -= registers
+            self.owners |= {i for _, i in save}  # restored, so still in use
 
     @contextmanager
     def get_stack(self, size):
